@@ -14,8 +14,12 @@ CORPUS = core.VERIF / "harness" / "corpus" / "C16"
 
 TRUSTED = [
     "translator/c16.py (get_dtype band chain -> Gen_C16.src_dtype_chain; the three detector-level models -> "
-    "Gen_C16.src_simple_wiring / src_sar_wiring / src_sar0_wiring; fails closed on any other shape)",
-    "correspondence harness: harness/props/c16.py generators, harness/drivers/c16.py, float.hex() -> (m, e) literals",
+    "Gen_C16.src_simple_wiring / src_sar_wiring / src_sar0_wiring and the parts of the detector each body reads / "
+    "writes -> src_*_touch; fails closed on any other shape)",
+    "correspondence harness: harness/props/c16.py generators, harness/drivers/c16.py, float.hex() -> (m, e) literals; "
+    "histories: the driver realises the operations of Model/AdcHist.v as attribute assignments on one CCD object, "
+    "detector.image.empty() or Detector.empty() followed by putting the signal back, and calls of the three models "
+    "(np.random.normal replaced by a deterministic stand-in during the noisy call)",
     "modelled, not verified: numpy elementwise float64 arithmetic = IEEE-754 round-to-nearest-even (Flocq "
     "BinarySingleNaN), np.clip = minimum(maximum()), np.minimum propagates NaN, np.trunc = round toward zero, "
     "np.nextafter(x, 0.0) = predecessor, Python int -> float64 conversion is correctly rounded and float/int "
@@ -426,8 +430,9 @@ def gen_history(r, plan=None, n=None, noise_ops=True):
 
 
 def gen_histories(ctx: Ctx, r, n_random, all_kind_pairs):
-    """Every ordered pair of output-type bands (the image of the first call is left in place), the second call
-    cycling through the three models (all 3 x 3 pairs of models when `all_kind_pairs`); then random histories."""
+    """Every ordered pair of output-type bands, the same band twice included (the image of the first call is mostly
+    left in place), the second call cycling through the three models (all 3 x 3 pairs of models when
+    `all_kind_pairs`); then random histories."""
     hs = []
     fam = ("simple", "sar", "noisy")
 
@@ -437,9 +442,12 @@ def gen_histories(ctx: Ctx, r, n_random, all_kind_pairs):
     c = 0
     for i in range(4):
         for j in range(4):
-            if i == j:
-                continue
-            pairs = [(a, b) for a in fam for b in fam] if all_kind_pairs else [(r.choice(fam), b) for b in fam]
+            if all_kind_pairs:
+                pairs = [(a, b) for a in fam for b in fam]
+            elif i == j:
+                pairs = [(b, b) for b in fam]        # the same model twice with the same output type (a reused buffer)
+            else:
+                pairs = [(r.choice(fam), b) for b in fam]
             for a, b in pairs:
                 rv = HIST_RANGES[c % len(HIST_RANGES)] if c % 3 else r.choice([(0.0, 5.0), (0.0, 10.0), (0.0, 1.0)])
                 rv2 = rv if r.random() < 0.75 else r.choice(HIST_RANGES)
@@ -784,6 +792,7 @@ def run(ctx: Ctx):
         ctx.sample(dict(history=dict(bits=c["bits"], vmin=c["vmin"], vmax=c["vmax"], n=len(c["xs"])),
                         ops=[{k: v for k, v in op.items() if k not in ("xs", "strengths", "noises", "zs")} for op in c["ops"]]))
     order_violations(ctx)
+    confirm_in_isolation(ctx)
     (ctx.build / "mismatches.json").write_text(__import__("json").dumps([dict(case=c, observed=o) for c, o in mism], indent=1))
     for c, o in mism:
         ctx.broken.append(Broken("correspondence", "Model/Adc.v vs implementation",
@@ -813,6 +822,42 @@ def order_violations(ctx: Ctx):
     ctx.violations[:] = first + rest
 
 
+def confirm_in_isolation(ctx: Ctx, limit=16):
+    """A replay must fail by itself.  The cases of one run share a few worker processes, so a converter that keeps
+    something at module level (a remembered type, range or buffer) can spoil a case through the cases that ran before
+    it in the same process.  Each of the first `limit` violating cases is run again alone in a fresh process and
+    judged again inside Coq: those that still violate are reported first, those that do not are moved to the end and
+    say so (histories carry their own past and normally reproduce; single frames of such a converter do not)."""
+    vs = ctx.violations[:limit]
+    if not vs:
+        return
+    cases = [{k: v.case[k] for k in CASE_KEYS if k in v.case} for v in vs]
+    obs = core.run_driver(ctx, "c16", cases, workers=min(8, len(cases)), chunk=1)
+    fr = [(k, c, o) for k, (c, o) in enumerate(zip(cases, obs)) if c["kind"] != "hist" and ("codes" in o or "raise" in o)]
+    hi = [(k, c, o) for k, (c, o) in enumerate(zip(cases, obs)) if c["kind"] == "hist" and "trace" in o
+          and len(o["trace"]) == len(c["ops"])]
+    files = {}
+    if fr:
+        files["iso_f"] = emit_file([(c, o) for _, c, o in fr])
+    if hi:
+        files["iso_h"] = emit_hist_file([(c, o) for _, c, o in hi])
+    res = core.coq_eval_many(ctx, files, timeout=600)
+    still = set()
+    if fr and res["iso_f"][0] and len(res["iso_f"][1]) == 2:
+        still |= {fr[i][0] for i in core.parse_int_list(res["iso_f"][1][1])}
+    if hi and res["iso_h"][0] and len(res["iso_h"][1]) == 2:
+        still |= {hi[v // 1000][0] for v in core.parse_int_list(res["iso_h"][1][1])}
+    good = [v for k, v in enumerate(vs) if k in still]
+    bad = [v for k, v in enumerate(vs) if k not in still]
+    for v in bad:
+        v.what += (" [observed in the run, but NOT reproduced when this case runs alone in a fresh process: the outcome "
+                   "depends on conversions that ran earlier in the same process]")
+        v.sig = dict(v.sig, alone="not_reproduced")
+    ctx.cov["violations_confirmed_alone"] = len(good)
+    ctx.cov["violations_not_reproduced_alone"] = len(bad)
+    ctx.violations[:] = good + ctx.violations[limit:] + bad
+
+
 def new_violations(ctx: Ctx):
     fs = core.load_findings(ctx.prop)
     return [v for v in ctx.violations if not any(core.finding_matches(e, v) for e in fs)]
@@ -837,6 +882,7 @@ def search(ctx: Ctx):
         _, _, hp = run_histories(ctx, gen_histories(ctx, r, 60, all_kind_pairs=True), tag="sh")
         ctx.cov["search_histories"] = len(hp)
     order_violations(ctx)
+    confirm_in_isolation(ctx)
     ctx.cov["search_frames"] = len(pairs)
 
 
@@ -882,7 +928,13 @@ META = dict(
         "equality; whole frames of the model satisfy the specification used to judge the implementation. The model is "
         "tied to the code by evaluating it inside Coq against apply_simple_adc / apply_sar_adc / the noisy variant "
         "with zero noise and the detector-level models on float64, float32 and float16 frames of code-transition "
-        "voltages +-1 ulp; the implementation's codes are judged inside Coq against the specification."),
+        "voltages +-1 ulp; the implementation's codes are judged inside Coq against the specification. Histories on ONE "
+        "detector object (setters of the resolution / voltage range, a new signal frame, the Image bucket emptied or left "
+        "holding the previous image, the three models called in any order) are a model of their own (Model/AdcHist.v): "
+        "proved for every initial state and every history that a call never changes the settings, that every allowed call "
+        "stores a defined image meeting the specification of the settings in force at that call whatever the bucket held "
+        "before, and that the model's trace passes the judge; generated histories (every ordered pair of output-type "
+        "bands, every model) are compared with the model after every operation and judged, inside Coq."),
     level_note=(
         "Trusted: Coq kernel + vm_compute; Flocq's IEEE-754 formalisation (its theorems use the real-number axioms and "
         "classic); translator/c16.py; the correspondence harness; numpy float64 = IEEE-754 binary64 round-to-nearest-even, "
